@@ -132,6 +132,14 @@ theorem apply_safe (v : Vec) (op : Op) (fuel : Option Nat) (h : VInv v) :
     · rw [List.getElem?_eq_getElem (by omega)]; simp
     · simp
 
+/-- The same for operations whose argument aliases an element of the vector. -/
+theorem applyA_safe (v : Vec) (a : AOp) (fuel : Option Nat) (h : VInv v) :
+    VInv (applyA v a fuel).1 ∧ (applyA v a fuel).2 ≠ .ub ∧ (applyA v a fuel).1.cap = v.cap := by
+  unfold applyA
+  cases resolveL (elems v) a with
+  | none => simp [h]
+  | some op => exact apply_safe v op fuel h
+
 /-- Constructors from a range: the object exists only if everything fitted, and then
 satisfies the invariant with exactly the requested capacity. -/
 theorem fromIter_safe (cap : Nat) (xs : List Slot) (fuel : Option Nat) :
@@ -253,6 +261,13 @@ theorem pstep_safe (p : Pool) (op : POp) (fuel : Option Nat) (hp : PInv p) :
     | none => exact ⟨hp, by simp⟩
     | some v =>
       have := apply_safe v op fuel (hp i v hi)
+      exact ⟨pinv_set hp this.1, this.2.1⟩
+  | onA i a =>
+    simp only [pstep]
+    cases hi : getV p i with
+    | none => exact ⟨hp, by simp⟩
+    | some v =>
+      have := applyA_safe v a fuel (hp i v hi)
       exact ⟨pinv_set hp this.1, this.2.1⟩
 
 theorem pinv_empty (n : Nat) : PInv (List.replicate n none) := by
